@@ -44,6 +44,23 @@ RULE = ("tie: (class, k, t, ctrl_state, relative_phase, action_only) tuples whos
         "evaluations of the real definition against the reference permutation; non-trivial = k>=2")
 DRIVER = "Drivers/C05.lean"
 
+# Generator-quality audit (tools/branch_audit.py C05): items of the anchored files the generated inputs do not reach.
+UNREACHED_JUSTIFIED = {
+    "qclib/gates/mcx.py:211 mcx_vchain_dirty": "static append helper, not the gate: probed by C15 (known finding K-C15-2: it "
+                                               "hands ctrl_state / relative_phase / action_only to the constructor one "
+                                               "position too early, so no call with a pattern builds the intended gate)",
+    "qclib/gates/mcx.py:329 mcx": "static append helper, not the gate: probed by C15 (known finding K-C15-1: appends the "
+                                  "k+2-qubit LinearMcx to k+1 qubits and raises)",
+    "qclib/gates/mcx.py:96->exit": "toffoli_multi_target is only called with side in ('l', 'r', None) (all three tied for "
+                                   "1..5 targets); the fall-through of the elif chain is dead",
+    "qclib/gates/mcx.py:160->exit": "the action-part loop always leaves through `break` at i = num_ctrl - 2 (the chain "
+                                    "branch needs num_ctrl >= 3), it is never exhausted",
+    "qclib/gates/util.py:25 orthonormal_eig": "eigenbasis utility of the U(2) gates: C04",
+    "qclib/gates/util.py:36 u2_to_su2": "U(2) -> SU(2) utility of Mcg: C04",
+    "qclib/gates/util.py:42 check_u2": "2x2-unitary validation of the one-qubit controlled gates: C04 / C16",
+    "qclib/gates/util.py:52 check_su2": "determinant test of the SU(2) gates: C04",
+}
+
 TOL = 1e-7
 DENSE_OP_MAX = 9         # full Operator up to this many qubits everywhere
 DENSE_SV_MAX = 11        # random dense Statevector up to this many qubits
@@ -385,6 +402,49 @@ def assumptions(ctx):
         raise RuntimeError("sparse simulator disagrees with qiskit Statevector (harness bug)")
 
 
+def toffoli_entry(ctx):
+    """The static `Toffoli.ccx(circuit, controls=None, target=None, cancel=None)`: without controls/target it acts on the
+    circuit's first three qubits, otherwise on [*controls, target]; every `cancel` option.  Tie: natural placement against
+    the model's gate list; oracle: any placement against the definition composed onto the same qubits."""
+    from qiskit import QuantumCircuit
+    from qiskit.quantum_info import Operator
+    from qclib.gates.toffoli import Toffoli
+    from flatten import flatten, to_lines
+    r = ctx.rng
+    for cancel in (None, "left", "right"):
+        for mode in ("default", "explicit", "placed"):
+            n = 3 if mode == "explicit" else r.randint(4, 5)
+            key = f"toffoli.ccx:cancel={cancel}:{mode}"
+            rep = {"kind": "toffoli.ccx", "method": "entry", "params": {"cancel": cancel, "mode": mode}}
+            try:
+                qc = QuantumCircuit(n)
+                if mode == "default":
+                    where = [0, 1, 2]
+                    Toffoli.ccx(qc) if cancel is None else Toffoli.ccx(qc, cancel=cancel)
+                elif mode == "explicit":
+                    where = [0, 1, 2]
+                    Toffoli.ccx(qc, [qc.qubits[0], qc.qubits[1]], qc.qubits[2], cancel)
+                else:
+                    where = r.sample(range(n), 3)
+                    Toffoli.ccx(qc, controls=where[:2], target=where[2], cancel=cancel)
+                got = Operator(qc).data
+                lines = to_lines(flatten(qc))
+            except Exception as e:
+                ctx.fail(key + ":raises", f"Toffoli.ccx(..., cancel={cancel!r}) [{mode}] raised {type(e).__name__}: {str(e)[:160]}", rep)
+                continue
+            ctx.count("branch:Toffoli.ccx:" + ("no-controls" if mode == "default" else "controls-given"))
+            if mode != "placed":
+                ctx.tie({"op": "toffoli", "cancel": cancel or "none"}, lines)
+            ref = QuantumCircuit(n)
+            ref.compose(Toffoli(cancel).definition, qubits=where, inplace=True)
+            err = float(np.abs(got - Operator(ref).data).max())
+            if err > TOL:
+                ctx.fail(key, f"max |Operator(circuit) - Toffoli(cancel={cancel!r}) on qubits {where}| = {err:.3e}",
+                         dict(rep, where=where))
+            else:
+                ctx.ok(key, nontrivial=True)
+
+
 # ------------------------------------------------------------------------------------------------
 # case generation
 # ------------------------------------------------------------------------------------------------
@@ -433,6 +493,7 @@ def run(ctx, scale=0, with_majority=True):
         for side in ("l", "r", None):
             ctx.tie({"op": "tmt", "n": n, "side": side or "both"},
                     to_lines(flatten(McxVchainDirty.toffoli_multi_target(n, side))))
+    toffoli_entry(ctx)
     kmax_v = (7 if quick else 9) + scale
     for k in range(1, kmax_v + 1):
         pats = patterns(ctx, k, 4 if quick else 5, 2 if quick else 4)
@@ -546,6 +607,9 @@ def replay(ctx, payload):
     kind, p, m = r["kind"], r["params"], r["method"]
     if m == "assumption":
         assumptions(ctx)
+        return
+    if m == "entry":
+        toffoli_entry(ctx)
         return
     if m == "construct":
         circ, gates, gerr = gate_list(kind, p)
